@@ -28,6 +28,16 @@ class EqVert(Vertex):
 def make_reject(target):
     """closures created from one lambda: same code object, different captured value"""
     return lambda e, v: v is not target
+class UnhashableCallable:
+    """a callable user object that defines __eq__ without __hash__ (so it cannot be a dictionary key)"""
+    def __init__(self, answer):
+        self.answer = answer
+        self.calls = []
+    def __call__(self, *args):
+        self.calls.append(args)
+        return self.answer
+    def __eq__(self, other):
+        return isinstance(other, UnhashableCallable) and other.answer == self.answer
 class FalsyCallable:
     """A callable user object whose truth value is False (e.g. an empty allow-list with __len__)."""
     def __init__(self, answer):
